@@ -272,6 +272,20 @@ def gen_case(rnd, ctx, maxlen, allow_cyclic):
     kind = rnd.choice(["list", "list", "scalar", "both"])
     ops = []
     pending = None
+    # object variants of the driver (the property does not distinguish them): one object in about eight has its
+    # list trait l0 DELEGATED to a private model object, one in about twelve rejects values for s1 with a
+    # ValueError subclass instead of TraitError
+    variant = ["plain"] * nobj
+    rv = rnd.random()
+    if rv < 0.12:
+        variant[rnd.randrange(nobj)] = "deleg"
+        kind = "list"
+        ctx.count("variant:delegated-list")
+    elif rv < 0.20:
+        variant[rnd.randrange(nobj)] = "valerr"
+        kind = rnd.choice(["list", "both"])
+        ctx.count("variant:rejects-with-ValueError")
+    valerr = [q for q in range(nobj) if variant[q] == "valerr"]
 
     def names():
         k = kind if kind != "both" else rnd.choice(["list", "scalar"])
@@ -297,6 +311,15 @@ def gen_case(rnd, ctx, maxlen, allow_cyclic):
             op = ["Sync", o, n, p, n, rnd.random() < 0.4]
             if not allow_cyclic and topology(edges_after(E, op), (o, n)) != "tree":
                 continue
+        elif valerr and valerr[0] in alive and len(alive) > 1 and r < 0.14 and not any(
+                op[0] == "Sync" and op[3] == valerr[0] and op[4] == 1 and op[2] in LISTS for op in ops):
+            # a list source with the ValueError-rejecting integer trait as (one-way) partner, then an ordinary partner
+            p = valerr[0]
+            o = rnd.choice([q for q in alive if q != p])
+            n = rnd.choice(LISTS)
+            op = ["Sync", o, n, p, 1, False]
+            ctx.count("link:one-way:rejecting-partner:ValueError")
+            pending = (o, n)
         elif r < 0.04 and len(alive) > 1:
             # an odd partner, one-way: the unobserved Any trait (takes everything) or a trait of the other kind
             # (a narrower type: rejects every value of the source; sync_trait itself raises TraitError)
@@ -366,7 +389,7 @@ def gen_case(rnd, ctx, maxlen, allow_cyclic):
                     lens[b] = lens[a]
     ctx.count("history-length:%02d" % len(ops))
     ctx.count("objects:%d" % nobj)
-    return dict(init=init, ops=ops)
+    return dict(init=init, ops=ops, variant=variant) if variant != ["plain"] * nobj else dict(init=init, ops=ops)
 
 
 def corpus():
@@ -397,6 +420,17 @@ def corpus():
     cs.append(dict(init=base, ops=[["Sync", 0, 2, 1, 3, True], ["Sync", 0, 2, 2, 2, True], ["Mut", 1, 3, ["Append", 5]],
                                    ["Mut", 2, 2, ["Imul", 2]], ["Sync", 1, 0, 1, 1, True], ["Assign", 1, 0, 8],
                                    ["Assign", 1, 1, 3]]))
+    # fourth wave: a DELEGATED list attribute (DelegatesTo a List) is a list trait for sync_trait, on either side
+    cs.append(dict(init=base, variant=["deleg", "plain", "plain"],
+                   ops=[["Sync", 0, 2, 1, 2, True], ["Assign", 0, 2, [1, 2, 3]], ["Mut", 0, 2, ["Append", 4]],
+                        ["Mut", 1, 2, ["Insert", 0, 0]], ["Mut", 1, 2, ["DelS", [1, 3, None]]], ["Sync", 2, 2, 0, 2, True],
+                        ["Mut", 2, 2, ["Append", 6]], ["Mut", 0, 2, ["Pop", None]], ["Unsync", 0, 2, 1, 2, True],
+                        ["Mut", 0, 2, ["Append", 99]], ["Mut", 1, 2, ["Append", 8]]]))
+    # fourth wave: a partner whose trait rejects the value with an exception that is not TraitError is skipped too
+    cs.append(dict(init=base, variant=["plain", "valerr", "plain"],
+                   ops=[["Sync", 0, 2, 1, 1, False], ["Sync", 0, 2, 2, 2, True], ["Assign", 0, 2, [5]],
+                        ["Mut", 0, 2, ["Append", 6]], ["Mut", 2, 2, ["Append", 7]], ["Assign", 2, 2, [1]],
+                        ["Assign", 1, 1, 3], ["Assign", 0, 2, [2, 2]]]))
     # a partner that rejects the value (list trait offered an int and vice versa) must not stop the others
     cs.append(dict(init=base, ops=[["Sync", 0, 0, 1, 2, False], ["Sync", 0, 0, 2, 0, False], ["Assign", 0, 0, 5],
                                    ["Sync", 0, 2, 2, 1, False], ["Sync", 0, 2, 1, 3, True], ["Assign", 0, 2, [4, 4]],
